@@ -61,6 +61,9 @@ func (msg *Message) SetArray(array *Array) *Message {
 
 // IsType returns true if the message type is the specified type, otherwise false.
 func (msg *Message) IsType(t MessageType) bool {
+	if msg == nil {
+		return false
+	}
 	return msg.Type == t
 }
 
@@ -99,6 +102,9 @@ func (msg *Message) IsNil() bool {
 
 // Bytes returns the message raw bytes.
 func (msg *Message) Bytes() ([]byte, error) {
+	if msg == nil {
+		return nil, ErrNil
+	}
 	return msg.bytes, nil
 }
 
@@ -114,6 +120,9 @@ func (msg *Message) Append(arrayMsg *Message) error {
 
 // String returns the message string if the message type is string, otherwise it returns an error.
 func (msg *Message) String() (string, error) {
+	if msg == nil {
+		return "", ErrNil
+	}
 	switch msg.Type {
 	case StringMessage, BulkMessage:
 		if msg.bytes == nil {
@@ -128,6 +137,9 @@ func (msg *Message) String() (string, error) {
 
 // Error returns the message error if the message type is error, otherwise it returns an error.
 func (msg *Message) Error() (error, error) {
+	if msg == nil {
+		return nil, ErrNil
+	}
 	switch msg.Type {
 	case ErrorMessage:
 		return errors.New(string(msg.bytes)), nil
@@ -139,6 +151,9 @@ func (msg *Message) Error() (error, error) {
 
 // Integer returns the message integer if the message type is integer, otherwise it returns an error.
 func (msg *Message) Integer() (int, error) {
+	if msg == nil {
+		return 0, ErrNil
+	}
 	switch msg.Type {
 	case IntegerMessage, StringMessage, BulkMessage:
 		return strconv.Atoi(string(msg.bytes))
@@ -150,6 +165,9 @@ func (msg *Message) Integer() (int, error) {
 
 // Array returns the message array if the message type is array, otherwise it returns an error.
 func (msg *Message) Array() (*Array, error) {
+	if msg == nil {
+		return nil, ErrNil
+	}
 	switch msg.Type {
 	case ArrayMessage:
 		return msg.array, nil
@@ -161,6 +179,9 @@ func (msg *Message) Array() (*Array, error) {
 
 // RESPBytes returns the RESP byte representation.
 func (msg *Message) RESPBytes() ([]byte, error) {
+	if msg == nil {
+		return nil, ErrNil
+	}
 	var respBytes bytes.Buffer
 
 	switch msg.Type {
